@@ -6,23 +6,27 @@ PROP = "C12"
 DRIVER = "c12"
 MODEL = "C12"
 MODEL_QUALID = "Model.Hedge.run_script"
-FORMAT = ("script [max; mode; ncalls; nd; d_1..d_nd; (op a b)*] mode 0=Fixed(d_1 ms) 1=Immediate 2=Dynamic(attempt k -> d_k ms, 0 beyond nd); "
-          "op 1=Poll i 2=Drop i 3=Advance a(ms) 4=Complete a b (a=16*i+k: attempt k of call i; b: 0 ok,1 err,2 panic; the value carried is a). "
-          "Call i uses request value i on its own clone of the hedge service. "
-          "trace: per event [r; v; ns; wake mask; in-flight; now_ms] with r: -1 no poll, 0 pending, 1 Ok(v), 2 Err(Inner v), "
-          "3 Err(AllAttemptsFailed v), 5 panicked, 9 nothing to poll; ns = sum_i (inner calls started for call i in this event)*32^i")
+FORMAT = ("script [max; mode; ncalls; nd; d_1..d_nd; (op a b)*] mode mod 4: 0=Fixed(d_1 ms) 1=Immediate 2=Dynamic(attempt k -> d_k ms, 0 beyond nd); "
+          "mode/4 = 1: gated readiness (clones of the inner service are not ready until the script's Ready op; the instance used by the primary is ready); "
+          "op 1=Poll i 2=Drop i 3=Advance a(ms) 4=Complete a b (a=16*i+n: the n-th inner call made for call i; b: 0 ok,1 err,2 panic; the value carried is a) "
+          "5=Ready a (a=16*i+k: the clone of hedge attempt k of call i becomes ready). "
+          "Call i uses request value i on its own hedge service over the shared inner service. "
+          "trace: per event [r; v; ns; nl; wake mask; in-flight; now_ms] with r: -1 no poll, 0 pending, 1 Ok(v), 2 Err(Inner v), "
+          "3 Err(AllAttemptsFailed v), 5 panicked, 9 nothing to poll; ns = sum_i (inner calls started for call i in this event)*32^i; "
+          "nl = sum_i (hedge attempt tasks of call i that ran for the first time, i.e. asked their clone for readiness, in this event)*32^i")
 RULE = ("timeline scripts built from a vector of per-attempt completion instants (before / at / after the ideal start of each later attempt, "
         "never) and outcomes (ok, err, panic) with prompt, lazy or sparse polling and occasional cancellation, max 1..5, fixed / zero / immediate / "
-        "per-attempt delays incl. zeros; random event soups over 1-2 concurrent calls; exhaustive short scripts over a small alphabet (thorough); "
+        "per-attempt delays incl. zeros; back-pressured clones (gated readiness: ready before launch, at launch, later, after the primary's success, never; out of order); "
+        "random event soups over 1-3 concurrent calls; exhaustive short scripts over a small alphabet (thorough); "
         "non-trivial = at least one hedge attempt was started or the call resolved with AllAttemptsFailed")
 TRUSTED = ["tokio mpsc (FIFO, receiver woken by every send and by the last sender going away), tokio::spawn (tasks run in spawn order when the harness yields), "
            "time::sleep (ready iff now >= deadline at whole ms; a zero sleep is ready at its first poll) and the biased select! are modelled, tied to the libraries only by this correspondence run",
            "poll atomicity: the call future's state is touched only inside one poll; attempt tasks touch only the channel"]
 ASSUMPTIONS = ["whole-millisecond instants", "single-threaded deterministic executor: spawned attempt tasks run, in spawn order, right after the event that spawned or unblocked them",
-               "the inner service is always ready (poll_ready of every clone returns Ready(Ok) at once)",
-               "at most one hedged call per request value, so that attempt k of call i is the k-th inner call with request i"]
+               "poll_ready of a clone never fails: it is Ready(Ok) at once, or Pending until the script's Ready op (gated runs)",
+               "at most one hedged call per request value, so that the n-th inner call of call i is the n-th inner call with request i"]
 
-EVW = 6
+EVW = 7
 
 
 def mk(mx, mode, ncalls, ds, evs):
@@ -35,7 +39,7 @@ def mk(mx, mode, ncalls, ds, evs):
 def header(s):
     g = lambda i: s[i] if i < len(s) else 0
     mx = max(1, min(16, max(0, g(0))))
-    mode = g(1)
+    mode = min(7, max(0, g(1)))     # mode % 4: delay kind, mode // 4: gated readiness
     ncalls = min(4, max(0, g(2)))
     nd = min(16, max(0, g(3)))
     ds = [min(100000, max(0, g(4 + j))) for j in range(nd)]
@@ -48,7 +52,7 @@ def header(s):
                 keep.append((op, a, b))
         elif op == 3:
             keep.append((op, min(100000, max(0, a)), b))
-        elif op == 4:
+        elif op in (4, 5):
             if a >= 0 and a // 16 < ncalls:
                 keep.append((op, a, b))
     return mx, mode, ncalls, ds, keep
@@ -56,6 +60,7 @@ def header(s):
 
 def delay_of(mode, ds, k):
     """configured delay before attempt k (k >= 1)"""
+    mode = mode % 4
     if mode == 1:
         return 0
     if mode == 2:
@@ -63,7 +68,12 @@ def delay_of(mode, ds, k):
     return ds[0] if ds else 0
 
 
+def gated(mode):
+    return (mode // 4) % 2 == 1
+
+
 def latency_mode(mode, ds):
+    mode = mode % 4
     if mode == 1:
         return False
     if mode == 2:
@@ -80,6 +90,9 @@ def decode(s, t):
 
 # ---------------------------------------------------------------------------
 # independent monitor: restates the clauses of C12 over the implementation's trace.
+# Vocabulary: attempt task k of a call is *launched* when it runs for the first time (the
+# primary: its inner call; a hedge: its clone is asked for readiness) and *started* when its
+# inner call is made (at launch if its clone is ready, else when the script readies the clone).
 def monitor(s, t):
     d = decode(s, t)
     if d is None:
@@ -94,28 +107,57 @@ def monitor(s, t):
 
 
 def monitor_call(i, mx, mode, ds, lat, evt):
-    starts = []          # instant of the k-th inner call of this hedged call
-    outcome = {}         # attempt -> (b, event index of the Complete)
-    delivered = []       # (event index, attempt, b) in queue order, while the call future is alive
+    launch = []          # launch instant of attempt task k
+    calls = []           # (task, instant) of the n-th inner call of this hedged call
+    waiting = []         # launched hedge tasks whose clone is not ready yet
+    ready = set()        # hedge clones the script has made ready
+    outcome = {}         # inner call n -> (b, event index of the Complete)
+    delivered = []       # (event index, task, n, b) in queue order, while the call future is alive
     alive = True         # future neither resolved nor dropped
     first_poll = None
     taken = 0            # number of delivered results the future has already looked at
     panics = False
+    is_gated = gated(mode)
+
+    def is_ready(k):
+        return k == 0 or (not is_gated) or k in ready
+
+    def start_call(idx, k, now):
+        n = len(calls)
+        calls.append((k, now))
+        if alive and n in outcome and outcome[n][0] != 2:
+            delivered.append((idx, k, n, outcome[n][0]))
+
+    def due():
+        """instant at which the next hedge is due (latency mode, a further hedge possible)"""
+        return launch[-1] + delay_of(mode, ds, len(launch))
+
     for idx, (e, o) in enumerate(evt):
         op, a, b = e
-        r, v, ns, mask, infl, now = o
+        r, v, ns, nl, mask, infl, now = o
         n_new = (ns >> (5 * i)) & 31
+        l_new = (nl >> (5 * i)) & 31
         woke = (mask >> i) & 1
         if op == 4 and a // 16 == i:
-            k = a % 16
-            if k not in outcome:
-                outcome[k] = (min(b, 2) if b in (0, 1) else 2, idx)
-                if outcome[k][0] == 2:
+            n = a % 16
+            if n not in outcome:
+                outcome[n] = (b if b in (0, 1) else 2, idx)
+                if outcome[n][0] == 2:
                     panics = True
-                if k < len(starts) and alive and outcome[k][0] != 2:
-                    delivered.append((idx, k, outcome[k][0]))
-        if n_new and not (op == 1 and a == i):
-            return "inner call started outside a poll of the hedged call (event %d)" % idx
+                if n < len(calls) and alive and outcome[n][0] != 2:
+                    delivered.append((idx, calls[n][0], n, outcome[n][0]))
+        if op == 5 and a // 16 == i:
+            k = a % 16
+            fresh = k not in ready
+            ready.add(k)
+            if is_gated and fresh and k in waiting:
+                waiting.remove(k)
+                if n_new != 1:
+                    return "clone of attempt %d became ready at %d ms but %d inner calls were made" % (k, now, n_new)
+                start_call(idx, k, now)
+                n_new = 0
+        if (n_new or l_new) and not (op == 1 and a == i):
+            return "inner call started / hedge launched outside a poll of the hedged call and without a Ready (event %d)" % idx
         if op == 1 and a == i:
             if not alive:
                 if r != 9:
@@ -125,26 +167,27 @@ def monitor_call(i, mx, mode, ds, lat, evt):
                 first_poll = now
             # --- what was queued when this poll began
             pend = delivered[taken:]
-            oks = [(j, k) for (j, k, bb) in pend if bb == 0]
-            # clause 3: first success wins, at the first poll at which one is queued
+            oks = [(j, n) for (j, k, n, bb) in pend if bb == 0]
+            # clause 3: first success wins, at the first poll at which one is queued -- also
+            # while a hedge is waiting for its clone to become ready
             if oks:
-                kwin = oks[0][1]
-                if r != 1 or v != 16 * i + kwin:
-                    return ("a success of attempt %d was queued at the poll at %d ms but the call returned (r=%d, v=%d)"
-                            % (kwin, now, r, v))
+                nwin = oks[0][1]
+                if r != 1 or v != 16 * i + nwin:
+                    return ("a success of inner call %d was queued at the poll at %d ms but the call returned (r=%d, v=%d)%s"
+                            % (nwin, now, r, v, " while hedge task(s) %s wait for readiness" % waiting if waiting else ""))
             elif r == 1:
                 return "resolved Ok(%d) at %d ms without a queued success" % (v, now)
             if r == 2:
                 return "Err(Inner) is never produced by the hedge"
             # clause 4: AllAttemptsFailed only if every attempt was started and has failed
-            errs_all = [(j, k) for (j, k, bb) in delivered if bb == 1]
+            errs_all = [(j, k, n) for (j, k, n, bb) in delivered if bb == 1]
             if r == 3:
-                if len(starts) != mx:
-                    return "AllAttemptsFailed at %d ms with %d of %d attempts started" % (now, len(starts), mx)
+                if len(launch) != mx or len(calls) != mx:
+                    return "AllAttemptsFailed at %d ms with %d of %d attempts launched, %d started" % (now, len(launch), mx, len(calls))
                 # an attempt has failed when its error was delivered, or when its task panicked
-                failed = set(k for (_, k) in errs_all) | set(k for k in outcome if outcome[k][0] == 2 and k < len(starts))
+                failed = set(n for (_, _, n) in errs_all) | set(n for n in outcome if outcome[n][0] == 2 and n < len(calls))
                 if sorted(failed) != list(range(mx)):
-                    return ("AllAttemptsFailed at %d ms but only attempts %s have failed"
+                    return ("AllAttemptsFailed at %d ms but only inner calls %s have failed"
                             % (now, sorted(failed)))
                 if lat and len(errs_all) != mx:
                     return "latency mode: AllAttemptsFailed with %d delivered errors" % len(errs_all)
@@ -153,7 +196,7 @@ def monitor_call(i, mx, mode, ds, lat, evt):
                         return "AllAttemptsFailed carries %d, not the primary's error %d" % (v, 16 * i)
                 else:
                     # parallel mode keeps the first error received (reported: the documentation says the primary's)
-                    if v != 16 * i + errs_all[0][1]:
+                    if v != 16 * i + errs_all[0][2]:
                         return "AllAttemptsFailed carries %d, not the first received error" % v
             if r == 5 and not panics:
                 return "the call future panicked without a scripted inner panic"
@@ -161,57 +204,83 @@ def monitor_call(i, mx, mode, ds, lat, evt):
             if r == 0:
                 if len(errs_all) >= mx:
                     return "all %d attempts have failed and were delivered, yet the poll at %d ms is pending" % (mx, now)
-                if not lat and len(starts) == mx and all(k in outcome for k in range(mx)):
+                if not lat and len(launch) == mx and not waiting and len(calls) == mx and all(n in outcome for n in range(mx)):
                     return "every attempt has finished, yet the poll at %d ms is pending" % now
             taken = len(delivered)
             if r != 0:
                 alive = False
-            # --- attempts started by this poll (their tasks run right after it)
-            for _ in range(n_new):
-                k = len(starts)
-                starts.append(now)
-                if alive and k in outcome and outcome[k][0] != 2:
-                    delivered.append((idx, k, outcome[k][0]))
-            # clause 1: bounded
-            if len(starts) > mx:
-                return "%d inner calls started, max_hedged_attempts = %d" % (len(starts), mx)
-            # clause 2: spacing
-            if len(starts) < 1:
+            # --- tasks launched by this poll run right after it, in order
+            n_launch = l_new + (1 if not launch else 0)
+            if not launch and n_new < 1:
                 return "the first poll did not start the primary"
-            if starts[0] != first_poll:
-                return "primary started at %d, first poll at %d" % (starts[0], first_poll)
+            started_here = 0
+            for _ in range(n_launch):
+                k = len(launch)
+                launch.append(now)
+                if is_ready(k):
+                    start_call(idx, k, now)
+                    started_here += 1
+                else:
+                    waiting.append(k)
+            if started_here != n_new:
+                return ("poll at %d ms launched tasks up to %d; %d of them have a ready clone but %d inner calls were made"
+                        % (now, len(launch) - 1, started_here, n_new))
+            # clause 1: bounded
+            if len(launch) > mx or len(calls) > mx:
+                return "%d attempts launched, %d inner calls started, max_hedged_attempts = %d" % (len(launch), len(calls), mx)
+            # clause 2: spacing (of the launch instants; an inner call is made at launch or later)
+            if launch[0] != first_poll or calls[0] != (0, first_poll):
+                return "primary started at %s, first poll at %d" % (calls[0], first_poll)
             if lat:
-                for k in range(1, len(starts)):
-                    if starts[k] < starts[k - 1] + delay_of(mode, ds, k):
-                        return ("attempt %d started at %d ms, less than %d ms after attempt %d (%d ms)"
-                                % (k, starts[k], delay_of(mode, ds, k), k - 1, starts[k - 1]))
-                if r == 0 and len(starts) < mx and now >= starts[-1] + delay_of(mode, ds, len(starts)):
+                for k in range(1, len(launch)):
+                    if launch[k] < launch[k - 1] + delay_of(mode, ds, k):
+                        return ("attempt %d launched at %d ms, less than %d ms after attempt %d (%d ms)"
+                                % (k, launch[k], delay_of(mode, ds, k), k - 1, launch[k - 1]))
+                if r == 0 and len(launch) < mx and now >= due():
                     return ("pending poll at %d ms left the elapsed hedge timer (due %d ms) unserved"
-                            % (now, starts[-1] + delay_of(mode, ds, len(starts))))
+                            % (now, due()))
             else:
-                if len(starts) != mx or any(x != first_poll for x in starts):
-                    return "parallel mode: starts %s, expected %d starts at %d ms" % (starts, mx, first_poll)
-            # primary succeeded before the first delay elapsed: exactly one inner call
+                if len(launch) != mx or any(x != first_poll for x in launch):
+                    return "parallel mode: launches %s, expected %d at %d ms" % (launch, mx, first_poll)
         if op == 2 and a == i:
             alive = False
+        for (k, tm) in calls:
+            if tm < launch[k] or (lat and k >= 1 and tm < launch[k - 1] + delay_of(mode, ds, k)):
+                return "inner call of attempt %d at %d ms, before its launch / the configured delay" % (k, tm)
         # wake-up: an unseen queued result must have woken the call future
         if alive and len(delivered) > taken and not woke:
-            return "result of attempt %d queued at event %d but the call future was not woken" % (delivered[taken][1], idx)
+            return "result of inner call %d queued at event %d but the call future was not woken" % (delivered[taken][2], idx)
         # timer: in latency mode the elapsed hedge timer must have woken the future
-        if alive and lat and starts and len(starts) < mx and now >= starts[-1] + delay_of(mode, ds, len(starts)) and not woke:
-            return "hedge timer elapsed at %d ms without waking the call future" % (starts[-1] + delay_of(mode, ds, len(starts)))
-    # clause 1, second half: primary's success queued before the first delay elapsed => one inner call
-    if lat and starts:
-        for (j, k, bb) in delivered:
-            if k == 0 and bb == 0 and evt[j][1][5] < starts[0] + delay_of(mode, ds, 1) and len(starts) != 1:
-                return "primary succeeded at %d ms, before the first hedge delay, yet %d inner calls were started" % (evt[j][1][5], len(starts))
+        if alive and lat and launch and len(launch) < mx and now >= due() and not woke:
+            return "hedge timer elapsed at %d ms without waking the call future" % due()
+    # clause 1, second half: primary's success queued before the first delay elapsed => one attempt
+    if lat and launch:
+        for (j, k, n, bb) in delivered:
+            if k == 0 and bb == 0 and evt[j][1][6] < launch[0] + delay_of(mode, ds, 1) and (len(launch) != 1 or len(calls) != 1):
+                return "primary succeeded at %d ms, before the first hedge delay, yet %d attempts were launched" % (evt[j][1][6], len(launch))
     return None
 
 
 # ---------------------------------------------------------------------------
 def corpus():
     P, D, A, C = (lambda i=0: (1, i, 0)), (lambda i=0: (2, i, 0)), (lambda d: (3, d, 0)), (lambda i, k, b: (4, 16 * i + k, b))
+    R = lambda i, k: (5, 16 * i + k, 0)
+    G = 4   # gated readiness
     return [
+        # seeded regression C12-2: the hedge delay elapses, the hedge's clone is not ready, the primary
+        # succeeds meanwhile => Ok at the next poll (the hedge never gets ready / gets ready later)
+        mk(2, G + 0, 1, [10], [P(), A(10), P(), A(5), C(0, 0, 0), P()]),
+        mk(2, G + 0, 1, [10], [P(), A(10), P(), A(5), C(0, 0, 0), P(), R(0, 1), C(0, 1, 0)]),
+        # ... and the timer for the next hedge keeps running while hedge 1 waits; errors are counted
+        mk(3, G + 0, 1, [10], [P(), A(10), P(), A(10), P(), R(0, 2), C(0, 1, 1), P(), R(0, 1), C(0, 2, 1), C(0, 0, 1), P()]),
+        # parallel mode with back-pressure: clones become ready out of order, all fail
+        mk(3, G + 1, 1, [], [P(), R(0, 2), C(0, 1, 1), R(0, 1), C(0, 2, 1), C(0, 0, 1), P()]),
+        # parallel mode: not all-failed while a hedge is still waiting for its clone
+        mk(2, G + 1, 1, [], [P(), C(0, 0, 1), P(), R(0, 1), P(), C(0, 1, 0), P()]),
+        # clone made ready before the hedge is launched: starts at the deadline
+        mk(2, G + 0, 1, [10], [R(0, 1), P(), A(10), P(), C(0, 1, 0), P()]),
+        # dropped call: a waiting hedge still makes its inner call when its clone gets ready
+        mk(2, G + 0, 1, [10], [P(), A(10), P(), D(), R(0, 1), C(0, 1, 0), C(0, 0, 0)]),
         # upstream defect 1a4d08f: delay 10 ms, 2 attempts, primary ok at 100 ms, hedge fails at once
         # => Ok at 100 ms, not AllAttemptsFailed at 11 ms
         mk(2, 0, 1, [10], [P(), C(0, 1, 1), A(10), P(), A(1), P(), A(89), C(0, 0, 0), P()]),
@@ -259,9 +328,32 @@ def timeline_script(rng, ncalls=1):
     for k in range(1, mx):
         ideal.append(ideal[-1] + delay_of(mode, ds, k))
     horizon = ideal[-1] + 25
+    is_g = rng.random() < 0.45
+    if is_g:
+        mode += 4
     todo = []   # (time, order, event)
     for i in range(ncalls):
         off = 0 if i == 0 else rng.choice([0, 0, 3, ideal[-1]])
+        if is_g:
+            # the seeded-regression shape: primary succeeds after the first hedge delay while hedge 1 is unready
+            shape = rng.random() < 0.3 and mx >= 2
+            for k in range(1, mx):
+                x = rng.random()
+                if shape and k == 1:
+                    x = rng.choice([0.0, 0.9])
+                if x < 0.2:
+                    continue            # never ready
+                if x < 0.4:
+                    tm = 0              # ready before it is launched
+                elif x < 0.6:
+                    tm = ideal[k]       # ready exactly when due
+                else:
+                    tm = ideal[k] + rng.choice([1, 2, 5, 8, 12, 20])
+                if shape and k == 1 and x > 0.5:
+                    tm = ideal[1] + rng.choice([8, 12, 20])
+                todo.append((max(0, tm + off), rng.random(), (5, 16 * i + k, 0)))
+            if shape:
+                todo.append((ideal[1] + off + rng.choice([0, 1, 3, 5]), rng.random(), (4, 16 * i, 0)))
         for k in range(mx):
             x = rng.random()
             if x < 0.12:
@@ -313,11 +405,16 @@ def random_script(rng, maxlen=30):
     mx = rng.choice([1, 2, 2, 3, 3, 4])
     mode, ds = rng.choice([(0, [3]), (0, [5]), (0, [0]), (1, []), (2, [0, 4]), (2, [2, 0, 3]), (2, [0, 0, 5]), (2, [])])
     ncalls = rng.choice([1, 1, 2, 2, 3])
+    is_g = rng.random() < 0.5
+    if is_g:
+        mode += 4
     evs = []
     for _ in range(rng.randint(3, maxlen)):
         x = rng.random()
         i = rng.randrange(ncalls)
-        if x < 0.45:
+        if is_g and rng.random() < 0.15:
+            evs.append((5, 16 * i + rng.randrange(1, mx + 1), 0))
+        elif x < 0.45:
             evs.append((1, i, 0))
         elif x < 0.50:
             evs.append((2, i, 0))
@@ -335,6 +432,8 @@ def exhaustive(depth, mx, mode, ds, ncalls=1):
     if ncalls > 1:
         alpha += [(1, 1, 0), (4, 16, 1), (4, 17, 0)]
     alpha += [(2, 0, 0), (4, 0, 2)]
+    if gated(mode):
+        alpha += [(5, k, 0) for k in range(1, mx)]
     for L in range(1, depth + 1):
         for evs in itertools.product(alpha, repeat=L):
             yield mk(mx, mode, ncalls, ds, evs)
@@ -347,6 +446,7 @@ def generate(rng, tier):
         out += [timeline_script(rng, 2) for _ in range(200)]
         out += [random_script(rng) for _ in range(600)]
         out += list(exhaustive(3, 2, 0, [2]))
+        out += list(exhaustive(3, 2, 4, [1]))
     else:
         out += [timeline_script(rng) for _ in range(30000)]
         out += [timeline_script(rng, 2) for _ in range(6000)]
@@ -356,6 +456,9 @@ def generate(rng, tier):
         out += list(exhaustive(4, 2, 1, []))
         out += list(exhaustive(4, 3, 0, [1]))
         out += list(exhaustive(3, 2, 0, [1], 2))
+        out += list(exhaustive(5, 2, 4, [1]))
+        out += list(exhaustive(4, 3, 4 + 2, [0, 1]))
+        out += list(exhaustive(4, 3, 4 + 1, []))
     return out
 
 
@@ -375,10 +478,10 @@ def nontrivial(s, t):
 def classify(s, t):
     d = decode(s, t)
     mx, mode, ncalls, ds, evs = header(s)
-    out = ["max%d" % mx, "calls%d" % ncalls]
-    if mode == 1:
+    out = ["max%d" % mx, "calls%d" % ncalls, "gated" if gated(mode) else "always_ready"]
+    if mode % 4 == 1:
         out.append("delay_immediate")
-    elif mode == 2:
+    elif mode % 4 == 2:
         out.append("delay_dynamic" + ("_zero_first" if (not ds or ds[0] == 0) else ""))
     else:
         out.append("delay_fixed" + ("_zero" if not latency_mode(mode, ds) else ""))
@@ -397,6 +500,16 @@ def classify(s, t):
             out.append("has_inner_error")
         tot = sum(sum((o[2] >> (5 * i)) & 31 for i in range(ncalls)) for (_, o) in evt)
         out.append("starts_%s" % ("le_calls" if tot <= ncalls else "hedged"))
+        nlaunch = sum(sum((o[3] >> (5 * i)) & 31 for i in range(ncalls)) for (_, o) in evt)
+        if nlaunch + ncalls > tot and nlaunch:
+            out.append("hedge_waited_for_readiness")
+        # Ok returned while some launched hedge had not made its inner call yet
+        ls = [0] * ncalls; cs = [0] * ncalls
+        for (e, o) in evt:
+            for i in range(ncalls):
+                ls[i] += (o[3] >> (5 * i)) & 31; cs[i] += (o[2] >> (5 * i)) & 31
+            if o[0] == 1 and e[0] == 1 and ls[e[1]] + 1 > cs[e[1]]:
+                out.append("ok_while_hedge_waiting")
     return out
 
 
